@@ -288,7 +288,19 @@ func splitList(vs []string) []string {
 func doChain(c ChainReq, segName string, start string, emit func(interface{})) {
 	seg := segMaps[segName]
 	w := build(c.Srv, c.Prefix, c.Ptrail, c.Lay, seg)
-	srv := httptest.NewServer(w.handler)
+	// the front of a multi-user deployment: the authenticated user travels in the request context
+	principalFor := func(u string) string { return w.prefix + "/" + seg[u] + "/" }
+	if w.cal != nil {
+		w.cal.PrincipalFor = principalFor
+	} else {
+		w.card.PrincipalFor = principalFor
+	}
+	srv := httptest.NewServer(http.HandlerFunc(func(rw http.ResponseWriter, r *http.Request) {
+		if u := r.Header.Get("X-Verif-User"); u != "" {
+			r = r.WithContext(context.WithValue(r.Context(), backends.UserKey, u))
+		}
+		w.handler.ServeHTTP(rw, r)
+	}))
 	defer srv.Close()
 	ctx, cancel := context.WithTimeout(context.Background(), 20*time.Second)
 	defer cancel()
@@ -297,7 +309,7 @@ func doChain(c ChainReq, segName string, start string, emit func(interface{})) {
 		endpoint = srv.URL + "/.well-known/" + map[string]string{"cal": "caldav", "card": "carddav"}[c.Srv]
 	}
 	ev := map[string]interface{}{"k": "chain", "srv": c.Srv, "plen": len(c.Prefix), "ptrail": c.Ptrail, "seg": segName, "start": start, "ncol": c.Lay.Ncol, "nobj": c.Lay.Nobj,
-		"wprincipal": w.principal, "whome": w.home, "wcols": append([]string{}, w.cols...), "principal": "", "home": "", "cols": []string{}, "objs": [][]string{}, "wobjs": [][]string{}, "err": ""}
+		"wprincipal": w.principal, "wprincipal2": principalFor("u2"), "principal2": "", "whome": w.home, "wcols": append([]string{}, w.cols...), "principal": "", "home": "", "cols": []string{}, "objs": [][]string{}, "wobjs": [][]string{}, "err": ""}
 	wobjs := [][]string{}
 	for _, cp := range w.cols {
 		l := append([]string{}, w.objs[cp]...)
@@ -378,7 +390,27 @@ func doChain(c ChainReq, segName string, start string, emit func(interface{})) {
 	}
 	ev["cols"] = cols
 	ev["objs"] = objs
+	// the same handler, the same starting point, another user: discovery leads to that user's principal
+	wc2, err := webdav.NewClient(userHTTP{"u2"}, endpoint)
+	if err != nil {
+		fail("client2", err)
+		return
+	}
+	p2, err := wc2.FindCurrentUserPrincipal(ctx)
+	if err != nil {
+		fail("principal of a second user on the same handler", err)
+		return
+	}
+	ev["principal2"] = p2
 	emit(ev)
+}
+
+// userHTTP names the user on every request it sends
+type userHTTP struct{ user string }
+
+func (u userHTTP) Do(req *http.Request) (*http.Response, error) {
+	req.Header.Set("X-Verif-User", u.user)
+	return http.DefaultClient.Do(req)
 }
 
 // ---- C11
